@@ -878,6 +878,57 @@ func main() {
 		rep.Consts = append(rep.Consts, "rb_shape")
 	}
 
+	// singleflight.go, waiter branch of Do: is the result copied out of the call record before the reference is dropped?
+	if fd := findFunc(internal, "Do"); fd != nil {
+		found := false
+		for _, st := range fd.Body.List {
+			ifs, ok := st.(*ast.IfStmt)
+			if !ok || ifs.Init == nil {
+				continue
+			}
+			isLookup := false
+			if as, ok := ifs.Init.(*ast.AssignStmt); ok && len(as.Rhs) == 1 {
+				if ix, ok := as.Rhs[0].(*ast.IndexExpr); ok && exprString(ix.X) == "g.m" {
+					isLookup = true
+				}
+			}
+			if !isLookup {
+				continue
+			}
+			copyIdx, relIdx := -1, -1
+			for i, in := range ifs.Body.List {
+				ast.Inspect(in, func(m ast.Node) bool {
+					switch x := m.(type) {
+					case *ast.AssignStmt:
+						for _, r := range x.Rhs {
+							if exprString(r) == "c.val" && copyIdx < 0 {
+								copyIdx = i
+							}
+						}
+					case *ast.CallExpr:
+						if exprString(x.Fun) == "c.dups.Add" && len(x.Args) == 1 {
+							if u, ok := x.Args[0].(*ast.UnaryExpr); ok && u.Op == token.SUB && relIdx < 0 {
+								relIdx = i
+							}
+						}
+					}
+					return true
+				})
+			}
+			if copyIdx >= 0 && relIdx >= 0 {
+				found = true
+				fmt.Fprintf(&cb, "(* singleflight.go, a caller that joined a call: the result is copied out of the record before the reference is dropped *)\nDefinition c_flight_copy_before_release : bool := %v.\n", copyIdx < relIdx)
+				rep.Consts = append(rep.Consts, "flight_copy_before_release")
+			}
+			break
+		}
+		if !found {
+			fail("Group.Do: waiter branch not recognised")
+		}
+	} else {
+		fail("Group.Do not found")
+	}
+
 	consV := cb.String()
 	if wheelInKernels {
 		// the spans table calls g_next2Power: put it after the kernels
